@@ -9,17 +9,13 @@ package main
 //	components/providers/http/provider.go           NewProvider: which ammo source is used (inline `uris` or file), that
 //	                                                the decoder is built after and for both; uriReadSeekCloser: the separator
 //
-// into lean/Pandora/Gen/ChosenCases.lean.  (The loop bodies of runFullScan — with the place of the filter, after
-// Decoder.Scan — and of runPreloaded are regenerated by the area "provloops".)
-// Reading of Go used here (trusted, see notes/C14.md):
+// into lean/Pandora/Gen/ChosenCases.lean.
 //
-//	if c { return e } ; rest                                 -> if c then e else rest
-//	for _, v := range xs { if c { return e } … } ; rest      -> a structural recursion over xs returning Option; `none` => rest
-//	len(xs) == 0, s == t, s != t on strings / ints, !, &&, || -> xs.length = 0, s = t, s ≠ t, ¬, ∧, ∨
-//	p.ammos = make(T, 0, …); for _, ammo := range ammos { if IsChosenCase(ammo.Tag(), p.Config.ChosenCases) { p.ammos = append(p.ammos, ammo) } }
-//	                                                         -> ammos.foldl (fun kept ammo => if chosen ammo then kept ++ [ammo] else kept) []
-//
-// Every statement of the translated bodies must match one of the listed shapes; anything else makes gen fail
+// Round 4: IsChosenCase, the filter loop of loadAmmo, Run (which path methods run) and the loop bodies of runFullScan /
+// runPreloaded are read by SYMBOLIC EXECUTION (area_chosencases_sym.go + area_chosencases_symloops.go; the reading
+// is described there).  Still read here by shape: the error branch of loadAmmo (chosencasesLF below: any nesting /
+// order of its guards), protoDecoder.LoadAmmo's bounds, NewProvider (source switch, decoderConf.Limit = 0 BEFORE the
+// decoder is built, Sink capacity), the guards of uriReadSeekCloser / fileReadSeekCloser; anything else makes gen fail
 // (broken obligation).
 
 import (
